@@ -74,6 +74,22 @@ impl<'a, T: Read + Seek> QueueReader<'a, T> {
 
     /// Reads the next packet from the compressed vector and decodes it into the queues.
     pub fn advance(&mut self) -> Result<()> {
+        // If all records have a size of zero bits there is no data stored in the file.
+        // In this case every point consists only of the known fixed values.
+        let prototype = &self.pc.prototype;
+        if !prototype.is_empty() && prototype.iter().all(|r| r.data_type.bit_size() == 0) {
+            for (i, r) in prototype.iter().enumerate() {
+                let value = match r.data_type {
+                    RecordDataType::ScaledInteger { min, .. } => RecordValue::ScaledInteger(min),
+                    RecordDataType::Integer { min, .. } => RecordValue::Integer(min),
+                    RecordDataType::Single { .. } => RecordValue::Single(0.0),
+                    RecordDataType::Double { .. } => RecordValue::Double(0.0),
+                };
+                self.queues[i].push_back(value);
+            }
+            return Ok(());
+        }
+
         let packet_header = PacketHeader::read(self.reader)?;
         match packet_header {
             PacketHeader::Index(header) => {
